@@ -128,7 +128,7 @@ def run_check(prop, tier="quick", base_seed=0, runs=None, workers=None, wall=Non
                         status = 2
                     elif not r["ok"]:
                         violations.append(r["violation"])
-            if len(violations) >= 40 or status == 2:
+            if len(violations) >= int(os.environ.get("GTSIM_MAXVIOL", "40")) or status == 2:
                 for p in pending:
                     p.cancel()
                 break
@@ -137,7 +137,7 @@ def run_check(prop, tier="quick", base_seed=0, runs=None, workers=None, wall=Non
             classes = collections.OrderedDict()
             for v in violations:
                 classes.setdefault(v["violation"]["check"], v)
-            todo = list(classes.values())[:6]
+            todo = list(classes.values())[: int(os.environ.get("GTSIM_MAXCLASSES", "6"))]
             mins = list(ex.map(worker_minimise, [(prop, v, 90 if tier == "quick" else 240) for v in todo]))
             os.makedirs(os.path.join(rt.VERIF, "replays"), exist_ok=True)
             for v, m in zip(todo, mins):
@@ -158,6 +158,19 @@ def run_check(prop, tier="quick", base_seed=0, runs=None, workers=None, wall=Non
         for e in F.load_all():
             if e.get("property") != prop:
                 continue
+            if e.get("status") == "fixed":
+                # a fixed entry suppresses nothing: its stored history is a regression replay
+                for rp in [e.get("replay")] + list(e.get("also", [])):
+                    if not rp:
+                        continue
+                    path = os.path.join(rt.VERIF, rp)
+                    again = list(ex.map(worker_replay, [(prop, json.load(open(path)))]))[0]
+                    agg.extra["fixed_replays_run"] += 1
+                    if again is not None:
+                        print(f"VIOLATION property={prop} replay={path}", file=out, flush=True)
+                        print(f"  fixed finding {e['id']} is back: check={again['check']} {again['msg'][:200]}", file=out, flush=True)
+                        agg.violations += 1
+                        status = max(status, 1)
             if e.get("status") == "open":
                 r = list(ex.map(worker_known, [(prop, e)]))[0] if e.get("replay") else {"still_fails": True, "same": True}
                 if r["still_fails"] and r.get("same", True):
@@ -224,12 +237,15 @@ class Agg:
         ops = {k.split(".", 1)[1]: v for k, v in self.stats.items() if k.startswith("op.")}
         checks = {k.split(".", 1)[1]: v for k, v in self.stats.items() if k.startswith("chk.")}
         cov = {
-            "evaluations": int(self.n),
+            "evaluations": int(self.n + self.stats.get("twins", 0)),
+            "workloads": int(self.n),
+            "perturbed_executions": int(self.stats.get("twins", 0)),
             "distinct_nontrivial": int(len(self.sigs)),
             "rule": RULES.get(self.prop, ""),
             "samples": self.samples[:6] or [{"note": "no sample captured"}],
             "exhaustive": False,
-            "runs_per_hour": int(self.n / max(wall, 1e-9) * 3600),
+            "runs_per_hour": int((self.n + self.stats.get("twins", 0)) / max(wall, 1e-9) * 3600),
+            "seeds_per_hour": int(self.n / max(wall, 1e-9) * 3600),
             "steps": int(self.steps),
             "simulated_time": "none - the library reads no clock; logical steps only",
             "faults_fired": faults,
